@@ -253,3 +253,39 @@ def r01_4(ctx, rr):
                 rr.ob(a[1], key=key + str(a[1]), sample={"fn": b.key, "accumulates": a[2], "clipped_or_masked": a[1]})
             if bad:
                 rr.violate(key, "%s counts the ones of raw backend words including the partial last word / spare words (`%s`) without masking by len or clipping by the known total: stale bits beyond len are counted" % (b.key, bad[0][2]), F.loc(bad[0][0]))
+
+
+@rule("R01.6", props=["C01", "C14"], floor=6, title="rank constructors read the backend only below ceil(len / 64) words")
+def r01_6(ctx, rr):
+    """Every `bits.as_ref()[x]` in Rank9::new / RankSmall::new is dominated by x < num_words with
+    num_words = len.div_ceil(64): spare words of the backend (left by pop/shrink, or supplied through
+    from_raw_parts) are never read."""
+    F = ctx.F()
+    bodies = F.find(r"^rank_sel::rank9::Rank9::<B>::new$") + F.find(r"^rank_sel::rank_small::RankSmall::<\d+, \d+, B>::new$")
+    if len(bodies) < 6:
+        raise AnchorMissing("expected Rank9::new and five RankSmall::new")
+    for b in bodies:
+        bits = ("var", b.params[0]["name"], b.params[0]["id"])
+        reads = []
+
+        def on_node(W, n, K, reads=reads):
+            if n.get("k") == "Index" and W.T.term(n["e"]) == bits and W.debug_depth == 0:
+                x = W.T.term(n["i"])
+                nw = set()
+                for a in K.atoms:
+                    for t in a[1:3]:
+                        if isinstance(t, tuple):
+                            for y in subterms(t):
+                                if len(y) == 3 and y[0] == "call" and y[1] == "int::div_ceil" and isinstance(y[2], tuple) and len(y[2]) == 2 and y[2][0] == ("call", "BitLength::len", (bits,)) and (y[2][1] == ("int", 64) or (y[2][1][0] == "def" and y[2][1][1].endswith("BITS"))):
+                                    nw.add(y)
+                ok = any(K.entails(atom_le(x, w, True)) for w in nw)
+                reads.append((n, ok, K.show()[:6]))
+        Walker(F, b, on_node=on_node).run()
+        if len(reads) < 2:
+            raise AnchorMissing("%s: expected at least 2 reads of the backend" % b.key)
+        for n, ok, known in reads:
+            rr.instances += 1
+            key = "%s:reads-below-num_words" % short_fn(b.key)
+            rr.ob(ok, key=key + str(ok), sample={"fn": b.key, "read": show(F, n), "established": known})
+            if not ok:
+                rr.violate(key, "%s reads the backend word `%s` without `index < len.div_ceil(64)` established (established: %s): whole words beyond the bit vector are counted" % (b.key, show(F, n), "; ".join(known) or "nothing"), F.loc(n))
